@@ -120,6 +120,29 @@ def run(pid, tier, replay=None):
                 rb = M.get_merkle_root([pool[x - 1] for x in b])
                 ev.append({"k": "pair", "a": a, "b": b, "same_root": ra == rb, "edit": kind})
                 chk.case(("edit", kind, tuple(a), tuple(b)), nontrivial=True)
+    # the same edits through the function that places the commitment in a block header (consensus.calc_merkle_root_hash, used by block
+    # assembly and by validate_block_by_itself), on real Transaction objects: entry 1 plays the reward transaction
+    import skepticoin.consensus as c
+    from skepticoin.datatypes import Transaction, Input, Output, OutputReference
+    from skepticoin.signing import CoinbaseData, SECP256k1PublicKey, SECP256k1Signature
+    pk = SECP256k1PublicKey(b"\x05" * 64)
+    txpool = [Transaction([Input(OutputReference(b"\x00" * 32, 0), CoinbaseData(7, b"r%d" % a))], [Output(10, pk)]) if a == 1 else
+              Transaction([Input(OutputReference(indep.sha256d(b"o%d" % a), a), SECP256k1Signature(bytes([a]) * 64))], [Output(a, pk)])
+              for a in range(1, 8)]
+    ids_ = [t.hash() for t in txpool]
+    nhdr = 0
+    for e in [e for e in ev if e["k"] == "pair"]:
+        for first in (None, 1):            # as generated, and with the reward transaction kept in first place on both sides
+            a, b = list(e["a"]), list(e["b"])
+            if first is not None:
+                a, b = [1] + a, [1] + b
+            ca = c.calc_merkle_root_hash([txpool[x - 1] for x in a])
+            cb = c.calc_merkle_root_hash([txpool[x - 1] for x in b])
+            ev.append({"k": "pair", "a": a, "b": b, "same_root": ca == cb, "edit": "header:" + e["edit"]})
+            if ca != M.get_merkle_root([ids_[x - 1] for x in a]):
+                chk.model_drift("header commitment of %r is not the merkle root of the transaction ids" % (a,))
+            nhdr += 1
+    chk.extra["header_commitment_pairs"] = nhdr
     for _ in range(100 if quick else 1000):
         n = rng.randint(1, 40)
         i = rng.randrange(n)
